@@ -363,6 +363,47 @@ fn writers(t: &mut Tape, obs: &mut Obs) -> R {
             }
         }
     }
+    // 5. one serializer value used more than once (cookie-factory's retry idiom: a failed attempt into a buffer that is too small, then
+    // the same closure again into a larger one): every successful use writes the whole value, whatever happened before
+    {
+        use cookie_factory::SerializeFn;
+        fn reuse<F: SerializeFn<Trickle>>(f: &F, want: &[u8], what: &str) -> R {
+            // one writer type for every use (a serializer value is tied to its writer type): a bounded one first, then unbounded ones
+            let small = want.len().saturating_sub(1).min(7);
+            let first = guard(what, || gen(f, Trickle { got: Vec::new(), step: usize::MAX, cap: small }).map(|(w, p)| (w.got.len(), p)).map_err(|e| format!("{:?}", e)))?;
+            ensure!(first.is_err() || want.len() <= small, format!("C09:writers:{}:short-buffer-accepted", what), "{} into a writer that takes {} bytes succeeded although the value needs {} bytes", what, small, want.len());
+            for round in 0..2 {
+                let again = guard(what, || gen(f, Trickle { got: Vec::new(), step: usize::MAX, cap: usize::MAX }).map(|(w, p)| (w.got, p)).map_err(|e| format!("{:?}", e)))?;
+                match again {
+                    Ok((v, pos)) => ensure!(v == want && pos as usize == want.len(), format!("C09:writers:{}:reuse", what), "{}: use number {} of one serializer value (after a failed attempt into a writer that takes {} bytes) wrote {} bytes {} (position {}), expected the {} bytes {}", what, round + 2, small, v.len(), hex_short(&v), pos, want.len(), hex_short(want)),
+                    Err(e) => return fail(format!("C09:writers:{}:reuse", what), format!("{}: use number {} of one serializer value failed: {}", what, round + 2, e)),
+                }
+            }
+            Ok(())
+        }
+        if is_rec {
+            let ser = gen_tls_plaintext(&rec);
+            reuse(&ser, &want, "gen_tls_plaintext")?;
+            for (k, m) in rec.msg.iter().enumerate() {
+                if let MMsg::Hs(h) = &msgs[k] {
+                    let wm = reference_bytes(h);
+                    let sm = gen_tls_message(m);
+                    reuse(&sm, &wm, "gen_tls_message")?;
+                    match m {
+                        TlsMessage::Handshake(TlsMessageHandshake::ClientHello(c)) => reuse(&gen_tls_clienthello(c), &wm, "gen_tls_clienthello")?,
+                        TlsMessage::Handshake(TlsMessageHandshake::ServerHello(c)) => reuse(&gen_tls_serverhello(c), &wm, "gen_tls_serverhello")?,
+                        TlsMessage::Handshake(TlsMessageHandshake::ServerHelloV13Draft18(c)) => reuse(&gen_tls_serverhellodraft18(c), &wm, "gen_tls_serverhellodraft18")?,
+                        TlsMessage::Handshake(TlsMessageHandshake::Finished(c)) => reuse(&gen_tls_finished(c), &wm, "gen_tls_finished")?,
+                        TlsMessage::Handshake(TlsMessageHandshake::ClientKeyExchange(c)) => reuse(&gen_tls_clientkeyexchange(c), &wm, "gen_tls_clientkeyexchange")?,
+                        _ => {}
+                    }
+                }
+            }
+        } else {
+            let ser = gen_tls_extensions(&crate_exts);
+            reuse(&ser, &want, "gen_tls_extensions")?;
+        }
+    }
     // 4. a writer that accepts a few bytes per call: an error, or everything
     let step = 1 + t.below(7);
     let r = guard(what, || {
